@@ -1,0 +1,58 @@
+//go:build verif
+
+package syncer
+
+import (
+	"context"
+	"time"
+
+	"github.com/PowerDNS/lightningstream/lmdbenv/header"
+	"github.com/PowerDNS/lightningstream/snapshot"
+	"github.com/PowerDNS/lightningstream/syncer/cleaner"
+	"github.com/PowerDNS/lightningstream/syncer/receiver"
+	"github.com/PowerDNS/lmdb-go/lmdb"
+)
+
+// This file only exists in builds with the "verif" tag. It exposes unexported
+// functionality to the external verification harness and adds yield points.
+
+// VerifYield, when set, is called at the named yield points of the sync loop.
+var VerifYield func(s *Syncer, point string)
+
+func verifYield(s *Syncer, point string) {
+	if VerifYield != nil {
+		VerifYield(s, point)
+	}
+}
+
+func (s *Syncer) VerifMainToShadow(ctx context.Context, txn *lmdb.Txn, ts header.Timestamp) error {
+	return s.mainToShadow(ctx, txn, ts)
+}
+
+func (s *Syncer) VerifShadowToMain(ctx context.Context, txn *lmdb.Txn) error {
+	return s.shadowToMain(ctx, txn)
+}
+
+func (s *Syncer) VerifReadDBI(txn *lmdb.Txn, dbiName, origDBIName string, rawValues bool) (*snapshot.DBI, error) {
+	return s.readDBI(txn, dbiName, origDBIName, rawValues)
+}
+
+func (s *Syncer) VerifSyncLoop(ctx context.Context, env *lmdb.Env, r *receiver.Receiver) error {
+	return s.syncLoop(ctx, env, r)
+}
+
+func (s *Syncer) VerifCleaner() *cleaner.Worker { return s.cleaner }
+
+func (s *Syncer) VerifLastByInstance() map[string]time.Time { return s.lastByInstance }
+
+func (s *Syncer) VerifInstanceID() string { return s.instanceID() }
+
+func (s *Syncer) VerifDeletedCutoff(now time.Time) header.Timestamp { return s.deletedCutoff(now) }
+
+func VerifDupSortEncodeOne(e snapshot.KV) (snapshot.KV, error) { return dupSortHackEncodeOne(e) }
+
+func VerifDupSortDecodeOne(e snapshot.KV) (snapshot.KV, error) { return dupSortHackDecodeOne(e) }
+
+func VerifDupSortEncode(d *snapshot.DBI) (*snapshot.DBI, error) { return dupSortHackEncode(d) }
+
+func VerifDupSortDecode(d *snapshot.DBI) (*snapshot.DBI, error) { return dupSortHackDecode(d) }
